@@ -3,6 +3,8 @@ package props
 import (
 	"bytes"
 	"fmt"
+	"github.com/gogo/protobuf/proto"
+	pb "github.com/ipfs/boxo/ipld/unixfs/pb"
 	"io"
 	"strings"
 	"testing"
@@ -35,7 +37,7 @@ func protoChooser(l datamodel.Link, _ linking.LinkContext) (datamodel.NodeProtot
 }
 
 func progressFor(ls *ipld.LinkSystem) traversal.Progress {
-	return traversal.Progress{Cfg: &traversal.Config{LinkSystem: *ls, LinkTargetNodePrototypeChooser: protoChooser}}
+	return traversal.Progress{Cfg: &traversal.Config{Ctx: bg, LinkSystem: *ls, LinkTargetNodePrototypeChooser: protoChooser}}
 }
 
 // allowedFor returns the set of blocks whose span intersects [a,b); empty
@@ -304,6 +306,83 @@ func TestC05(t *testing.T) {
 		})
 	}
 
+	// a sparse file whose first sub-tree declares 5 GiB (and is never read): reading the tail behind
+	// it may fetch the tail only - declared sizes beyond 32 bits are sizes all the same
+	r.Case("file/sparse-huge-subtree", map[string]any{"declared": "5 GiB sub-tree + 7-byte tail"}, func(c *mon.Case) {
+		st := store.New()
+		tail := []byte("thetail")
+		tailCid := st.PutBlock(1, cid.Raw, tail)
+		ft := pb.Data_File
+		huge := uint64(5) << 30
+		missing := store.New().PutBlock(1, cid.Raw, []byte("a block that is not in the store"))
+		hm := &pb.Data{Type: &ft, Filesize: proto.Uint64(huge), Blocksizes: []uint64{huge}}
+		hblk := encodePB(mustMarshal(hm), true, []pbLinkSpec{{Name: strp(""), Tsize: u64p(huge), Cid: missing}})
+		hCid := st.PutBlock(1, cid.DagProtobuf, hblk)
+		rm := &pb.Data{Type: &ft, Filesize: proto.Uint64(huge + 7), Blocksizes: []uint64{huge, 7}}
+		root := st.PutBlock(1, cid.DagProtobuf, encodePB(mustMarshal(rm), true, []pbLinkSpec{
+			{Name: strp(""), Tsize: u64p(huge + uint64(len(hblk))), Cid: hCid}, {Name: strp(""), Tsize: u64p(7), Cid: tailCid}}))
+		st.Logging = true
+		ls := st.LinkSystem(true)
+		raw, err := loadRaw(ls, root)
+		if err != nil {
+			c.Harness("load: %v", err)
+			return
+		}
+		allowed := map[string]bool{root.String(): true, tailCid.String(): true}
+		for a := int64(0); a < 7; a++ {
+			for form := 0; form < 3; form++ {
+				st.ResetLog()
+				node, rerr := ls.KnownReifiers["unixfs"](ipld.LinkContext{Ctx: bg}, raw, ls)
+				if rerr != nil || node == nil || node.Kind() != datamodel.Kind_Bytes {
+					c.Violation("C05|reify", "lazy reify of the sparse file: %v (%T)", rerr, node)
+					return
+				}
+				var got []byte
+				var gerr error
+				what := ""
+				c.Guard("sparse read", func() {
+					switch form {
+					case 0, 1:
+						rs, e := node.(largeBytes).AsLargeBytes()
+						if e != nil {
+							gerr = e
+							return
+						}
+						if form == 0 {
+							what = fmt.Sprintf("Seek(5GiB+%d,Start)+ReadFull", a)
+							_, gerr = rs.Seek(int64(huge)+a, io.SeekStart)
+						} else {
+							what = fmt.Sprintf("Seek(%d,End)+ReadFull", a-7)
+							_, gerr = rs.Seek(a-7, io.SeekEnd)
+						}
+						if gerr == nil {
+							got = make([]byte, 7-a)
+							_, gerr = io.ReadFull(rs, got)
+						}
+					default:
+						what = fmt.Sprintf("MatcherSubset(5GiB+%d,5GiB+7)", a)
+						ssb := sb.NewSelectorSpecBuilder(basicnode.Prototype.Any)
+						sel, e := ssb.MatcherSubset(int64(huge)+a, int64(huge)+7).Selector()
+						if e != nil {
+							gerr = e
+							return
+						}
+						gerr = progressFor(ls).WalkMatching(node, sel, func(_ traversal.Progress, nd datamodel.Node) error {
+							bb, e := nd.AsBytes()
+							got = bb
+							return e
+						})
+					}
+				})
+				if gerr != nil || !bytes.Equal(got, tail[a:]) {
+					c.Violation("C05|wrong-bytes", "%s on the sparse file returned %q err=%v, want %q", what, got, gerr, tail[a:])
+					return
+				}
+				checkSubset(c, "C05|file-overfetch|"+[]string{"seek-start", "seek-end", "subset-matcher"}[form], what+" on a file whose first sub-tree declares 5 GiB", st.ReadCids(), allowed)
+			}
+		}
+		c.Sig("file|sparse-huge", true)
+	})
 	// sharded directories: one lookup on a fresh node fetches only the hash path
 	for _, d := range dirCases(r) {
 		d := d
